@@ -35,6 +35,18 @@ CHECKS = {
  "C18": dict(cat="exploration", tech="exhaustive enumeration of import graphs (<= 3 packages, all permutations of import lists; 4 packages sampled/all) run through the real CLI, compared with a reference resolver; order-invariance monitor on exit, parsed-namespace log and normalised model dump",
    text="Exhaustive for <= 3 packages incl. self loops; 4 packages sampled in quick and exhaustive in thorough; special layouts around the nesting limit. One known finding (symlinked directory).",
    note="Trusted: reference resolver (cycle / conflict / depth) written from the property text; a package exactly at the limit is don't-care.", ref="§5 C18"),
+ "C04": dict(cat="exploration", tech="metamorphic runtime monitoring: schema literals of C++/Python/MATLAB output and headers written by executed generated writers, under neutral edits and under candidate edits classified affecting/non-affecting by reference-encoding a value pool under both models",
+   text="Held on the bases and edits explored: all observations of a schema agree, 9 neutral edits keep it byte-identical, and every edit that changed a reference encoding changed the schema text.",
+   note="Trusted: reference codec as the judge of 'alters how some value is encoded' (8 pool value sets per protocol); MATLAB literal read from text.", ref="§5 C04"),
+ "C13": dict(cat="exploration", tech="metamorphic runtime monitoring: complete generated trees hashed across 10 pure-syntax spellings, schema literals and bytes written by executed generated Python across layout variants, verdict agreement on invalid packages",
+   text="Held on the ASTs explored: pure-syntax spellings gave byte-identical trees for all targets; layout variants kept schemas and written bytes.",
+   note="Trusted: the harness emitter's notion of 'same model in another spelling' (docs/cpp/language.md syntax forms).", ref="§5 C13"),
+ "C15": dict(cat="fault_enumeration", tech="fault enumeration on the header + neighbour protocols: executed generated readers (C++ plain/ASan, Python; binary/NDJSON) fed foreign or corrupted streams under a process monitor; refusal-before-first-value oracle on the unit-buffered output",
+   text="Every enumerated foreign / corrupted stream was refused with an error before any value was delivered, without crash or sanitizer report.",
+   note="Trusted: harness driver constructs the reader before reading; an ASan abort on a failing operator new is counted as refusal (std::bad_alloc in the plain build).", ref="§5 C15"),
+ "C17": dict(cat="exploration", tech="runtime monitoring, exhaustive over block partitions (n<=5 quick / 6 thorough) x buffer capacities: executed generated C++ CopyTo (single, batch, fallback batch) and Python write modes on shape-alternating item sequences, reference decode of the output",
+   text="Item sequences were preserved for every explored (partition, capacity, input format, write mode); exhaustive over partitions of short streams, sampled for long ones.",
+   note="Trusted: reference codec controls the input block partition; equality on canonical values.", ref="§5 C17"),
 }
 NA_REASON = "check not built yet in this session (work in progress, see DESIGN.md §5 for the planned monitor)"
 
